@@ -25,7 +25,150 @@ pub fn all() -> Vec<Property> {
     vec![c01::property(), c02::property(), c03::property(), c04::property(), c05::property(), c06::property(), c07::property(), c08::property(), c09::property(), c10::property(), c11::property(), c12::property(), c13::property(), c14::property(), c15::property(), c16::property_c16(), c16::property_c17(), c18::property(), c19::property(), c20::property()]
 }
 
-/// Non-tape engines (libFuzzer campaigns, subprocess sweeps) attached to a property.
-pub fn extra(_id: &str, _tier: crate::engine::Tier, _seed: u64) -> Option<crate::engine::Extra> {
+/// Non-tape engines attached to a property: coverage-guided libFuzzer campaigns (thorough tier only).
+/// The tape target reuses the property's own generators and oracles (libFuzzer mutates choices); the text
+/// target feeds raw bytes to the parsers with the C05 / C12 / C20 oracles inside.
+pub fn extra(id: &str, tier: crate::engine::Tier, seed: u64) -> Option<crate::engine::Extra> {
+    use crate::engine::{Extra, Tier};
+    if tier != Tier::Thorough || std::env::var_os("VERIF_NO_FUZZ").is_some() {
+        return None;
+    }
+    let subs: Vec<(&str, usize)> = match id {
+        "C02" => vec![("eval", 900)],
+        "C05" => vec![("single", 700)],
+        "C12" => vec![("format", 3000)],
+        "C20" => vec![("policy-text", 1200), ("schema", 2500), ("json", 2500), ("protobuf", 1200)],
+        _ => return None,
+    };
+    let runs: u64 = std::env::var("VERIF_FUZZ_RUNS").ok().and_then(|s| s.parse().ok()).unwrap_or(150_000);
+    let mut extra = Extra::default();
+    let mut report = Vec::new();
+    let fuzz_dir = format!("{}/harness/fuzz", crate::engine::VERIF_DIR);
+    let mut campaigns: Vec<(String, String, usize)> = subs.iter().map(|(s, len)| ("tape".to_string(), format!("{id}:{s}"), *len * 4)).collect();
+    if ["C05", "C12", "C20"].contains(&id) {
+        campaigns.push(("text".to_string(), format!("{id}:text"), 600));
+    }
+    for (target, spec, max_len) in campaigns {
+        let corpus = format!("{fuzz_dir}/corpus-run/{}-{}", target, spec.replace(':', "-"));
+        let _ = std::fs::remove_dir_all(&corpus);
+        let _ = std::fs::create_dir_all(&corpus);
+        // seed corpus: full-length pseudo-random tapes (the empty corpus ramps length slowly), resp. small valid texts
+        let mut x = seed ^ 0x9E3779B97F4A7C15;
+        let mut next = || {
+            x ^= x << 13;
+            x ^= x >> 7;
+            x ^= x << 17;
+            x
+        };
+        if target == "tape" {
+            for i in 0..48 {
+                let bytes: Vec<u8> = (0..max_len).map(|_| (next() >> 24) as u8).collect();
+                let _ = std::fs::write(format!("{corpus}/seed{i}"), bytes);
+            }
+        } else {
+            let seeds = [
+                "permit(principal, action, resource);",
+                "@id(\"x\")\nforbid(principal == A::\"a\", action in [Action::\"v\"], resource is B in B::\"b\") when { principal.n > -1 && !(context has a.b) } unless { resource like \"a*\\*\" };",
+                "permit(principal in ?principal, action, resource == ?resource) when { if true then [1, {a: ip(\"1.1.1.1/8\")}].contains(2) else principal.getTag(\"k\") == \"\\u{1F600}\" }; // c\n",
+            ];
+            for (i, s0) in seeds.iter().enumerate() {
+                let _ = std::fs::write(format!("{corpus}/seed{i}"), s0);
+            }
+        }
+        let artifacts = format!("{fuzz_dir}/artifacts/{target}/");
+        let _ = std::fs::remove_dir_all(&artifacts);
+        let spec_env = if target == "tape" { spec.clone() } else { "C20:policy-text".to_string() };
+        let out = std::process::Command::new("cargo")
+            .current_dir(format!("{}/harness", crate::engine::VERIF_DIR))
+            .env("VERIF_FUZZ_TARGET", &spec_env)
+            .env("CARGO_NET_OFFLINE", "true")
+            .args(["+nightly", "fuzz", "run", &target, &corpus, "--", &format!("-runs={runs}"), &format!("-seed={}", (seed % 4_000_000_000) + 1), &format!("-max_len={max_len}"), "-len_control=0", "-max_total_time=1500", "-timeout=120", "-rss_limit_mb=6000"])
+            .output();
+        let Ok(out) = out else {
+            extra.inconclusive = Some("cargo fuzz could not be started".into());
+            continue;
+        };
+        let log = String::from_utf8_lossy(&out.stderr).to_string();
+        let done = log.lines().rev().find(|l| l.contains("Done ") && l.contains(" runs")).map(|l| l.trim().to_string());
+        let stats = log.lines().rev().find(|l| l.contains(" cov: ") && l.contains(" ft: ")).map(|l| l.trim().to_string());
+        let n_done: u64 = done.as_ref().and_then(|l| l.split_whitespace().nth(1)).and_then(|x| x.parse().ok()).unwrap_or(0);
+        extra.evals += n_done;
+        let corpus_size = std::fs::read_dir(&corpus).map(|d| d.count()).unwrap_or(0);
+        report.push(serde_json::json!({"target": target, "spec": spec, "runs_requested": runs, "runs_done": n_done, "last_stats": stats, "corpus_files": corpus_size, "exit_ok": out.status.success()}));
+        eprintln!("[{id}] libFuzzer {target} {spec}: {} {}", done.clone().unwrap_or_default(), stats.clone().unwrap_or_default());
+        if !out.status.success() {
+            // crash artifact -> replay file
+            let art = std::fs::read_dir(&artifacts).ok().and_then(|mut d| d.find_map(|e| e.ok()).map(|e| e.path()));
+            let sig_line = log.lines().find(|l| l.contains("VERIF-FUZZ-VIOLATION")).unwrap_or("").to_string();
+            match art {
+                Some(path) => {
+                    let bytes = std::fs::read(&path).unwrap_or_default();
+                    let replay = format!("{}/replays/{}-fuzz-{}.json", crate::engine::out_dir(), id, path.file_name().and_then(|n| n.to_str()).unwrap_or("artifact"));
+                    let _ = std::fs::create_dir_all(format!("{}/replays", crate::engine::out_dir()));
+                    let doc = if target == "tape" {
+                        let words: Vec<u32> = crate::tape::Tape::from_bytes(&bytes).words().to_vec();
+                        serde_json::json!({"property": id, "sub": spec.split(':').nth(1), "tier": "thorough", "seed": seed, "signature": sig_line, "tape": words, "source": "libFuzzer"})
+                    } else {
+                        serde_json::json!({"property": id, "sub": "text", "tier": "thorough", "seed": seed, "signature": sig_line, "text": String::from_utf8_lossy(&bytes), "source": "libFuzzer"})
+                    };
+                    let _ = std::fs::write(&replay, serde_json::to_string_pretty(&doc).unwrap_or_default());
+                    // a libFuzzer timeout / OOM is inconclusive, a VERIF-FUZZ-VIOLATION or a crash is a violation
+                    if sig_line.is_empty() && (log.contains("ERROR: libFuzzer: timeout") || log.contains("out-of-memory")) {
+                        extra.inconclusive = Some(format!("libFuzzer {target} {spec}: timeout/oom, artifact {}", path.display()));
+                    } else {
+                        eprintln!("{sig_line}");
+                        extra.violation = Some(replay);
+                    }
+                }
+                None => extra.inconclusive = Some(format!("libFuzzer {target} {spec} exited with an error but left no artifact: {}", log.lines().rev().take(5).collect::<Vec<_>>().join(" | "))),
+            }
+        }
+        let _ = std::fs::remove_dir_all(&corpus);
+    }
+    extra.json.insert("fuzz".into(), serde_json::Value::Array(report));
+    Some(extra)
+}
+
+/// Oracles for the byte-level libFuzzer target: anything the parser accepts must round-trip through the printer
+/// (C05), be formatted without loss (C12), and nothing may panic (C20; panics are caught by the caller).
+/// Returns Some((signature, message)) on a violation.
+pub fn fuzz_text_oracles(s: &str) -> Option<(String, String)> {
+    use cedar_policy_core::parser;
+    let Ok(set) = parser::parse_policyset(s) else { return None };
+    // C05: print every template with the AST printer, re-parse, compare
+    for t in set.all_templates() {
+        let printed = t.to_string();
+        match parser::parse_policy_or_template(Some(t.id().clone()), &printed) {
+            Ok(t2) => {
+                if let Err(e) = crate::bridge::templates_equal(t, &t2) {
+                    return Some(("C05:roundtrip-structure".into(), format!("{e}\ninput: {s:?}\nprinted: {printed}")));
+                }
+            }
+            Err(e) => return Some(("C05:printed-text-rejected".into(), format!("{e}\ninput: {s:?}\nprinted: {printed}"))),
+        }
+    }
+    // C12: formatter keeps policies and comments (known trailing-comma findings excluded: skipped when a comma precedes a closer)
+    let cfg = cedar_policy_formatter::Config::default();
+    match cedar_policy_formatter::policies_str_to_pretty(s, &cfg) {
+        Ok(out) => {
+            let ic = c12::comments_of(s);
+            let oc = c12::comments_of(&out);
+            let toks = c12::tokenize(s);
+            let trailing_comma = toks.windows(2).any(|w| matches!((&w[0], &w[1]), (c12::Tok::Punct(a), c12::Tok::Punct(b)) if a == "," && ["}", "]", ")"].contains(&b.as_str())))
+                || toks.windows(3).any(|w| matches!((&w[0], &w[1], &w[2]), (c12::Tok::Punct(a), c12::Tok::Comment(_), _) if a == ",") || matches!((&w[0], &w[1], &w[2]), (_, c12::Tok::Comment(_), c12::Tok::Punct(b)) if b == ","));
+            if ic != oc && !trailing_comma {
+                return Some(("C12:comments".into(), format!("input comments {ic:?} output comments {oc:?}\ninput: {s:?}\noutput: {out}")));
+            }
+            match parser::parse_policyset(&out) {
+                Ok(set2) => {
+                    if set2.all_templates().count() != set.all_templates().count() {
+                        return Some(("C12:policy-count".into(), format!("input: {s:?}\noutput: {out}")));
+                    }
+                }
+                Err(e) => return Some(("C12:format-output-unparseable".into(), format!("{e}\ninput: {s:?}\noutput: {out}"))),
+            }
+        }
+        Err(e) => return Some(("C12:format-failed".into(), format!("{e:?}\ninput: {s:?}"))),
+    }
     None
 }
